@@ -44,7 +44,9 @@ Eval vm_compute in ("BAD"%string, filter (fun i => negb (c12_ok i)) ids, "STABLE
                               key="C12:id:%s" % i, input={"product_id": int(i)},
                               replay="veregister.GetRegisterListByProduct(veproduct.Product(%s))" % i)
     if m.group(2) != "true":
-        res.add_violation("GetRegisterListByProduct depends on the history of earlier calls (second/third pass over the ids differs from the first)",
-                          key="C12:history", input="ids ascending, then descending, then 0x203,0x204,0xA381,0xA389,0xA053,0xA056,0xA053,0xA231,0xA2B1,0x203")
+        note = re.search(r"\(\* obs_reglist_unstable_note: (.*?) \*\)", open(common.GEN + "/Obs.v").read())
+        note = note.group(1) if note and note.group(1) else "second/third pass over the ids differs from the first"
+        res.add_violation("GetRegisterListByProduct depends on the history of earlier calls: " + note,
+                          key="C12:history", input=note)
     if m.group(3) != "true":
         res.add_violation("unknown product ids do not get ErrUnsupportedType and an empty list", key="C12:default")
